@@ -1074,7 +1074,7 @@ def _sig_missing_dep_braces(w):
             and any('error_msg.format(dep)' in l for l in v.get('stderr') or []))
 
 
-SIGNATURES = {'missing-dep-with-braces-traceback': _sig_missing_dep_braces,
+SIGNATURES = {
               'changed-empty-on-false-uptodate': _sig_false_uptodate,
               }
 
